@@ -214,7 +214,7 @@ def gen_model_one(st, log, module, repname, flags, key):
             info['note'] = 'translator gen_model failed: ' + out.strip()[-400:]
             break
         r = json.load(open(rep))
-        info['untranslated'], info['translated'] = r.get('untranslated', {}), len(r.get('translated', []))
+        info['untranslated'], info['translated'] = r.get('untranslated') or {}, len(r.get('translated') or [])
         rc, out = sh(['make', 'Generated/%s.vo' % module], cwd=COQ, timeout=900)
         if rc == 0:
             info['ok'] = True
@@ -227,7 +227,7 @@ def gen_model_one(st, log, module, repname, flags, key):
                 if mm:
                     bad = mm.group(1)
         log.write('--- %s.v does not compile (%s): %s\n' % (module, bad, out[-800:]))
-        names = {n.replace('.', '_'): n for n in r.get('translated', [])}
+        names = {n.replace('.', '_'): n for n in (r.get('translated') or [])}
         if not bad or bad not in names or names[bad] in skip:
             with open(srcv, 'w') as f:
                 f.write('(* the translation of the sources did not compile: %s *)\n' % (bad or 'unknown place'))
@@ -831,9 +831,27 @@ def run_check(pid, tier, seed, replay, log, t0):
     #      unchanged tree does not have (coverage_baseline/all_blocks.txt) are reported: new code that nothing ran.
     if src_tie and src_tie.get('failed') and st['harness_ok'] and LAST_CASES:
         base = coverage_baseline(pid)
-        missed, nblocks = unexercised_blocks(pid, LAST_CASES, log)
+        # what "the correspondence" runs is what all the streams run, not this property's alone: a branch that another
+        # property's stream exercises (the nil Suite of C10's, say) is spoken for by that property's check
+        allc = list(LAST_CASES)
+        for opid in sorted(PROPS):
+            if opid == pid:
+                continue
+            allc += list(load_corpus(opid))
+            for (stream, nq, nt) in PROPS[opid].get('streams') or []:
+                rc2, out2 = sh([os.path.join(BIN, 'harness'), 'gen', stream, str(seed), str(min(nq, nt))], timeout=600)
+                if rc2 == 0:
+                    allc += out2.split('\n')[:-1]
+        src_tie['coverage_pass_cases'] = len(allc)
+        missed, nblocks = unexercised_blocks(pid, allc, log)
         if missed is not None and base is not None:
-            new = [(loc, key) for (loc, key) in missed if key not in base]
+            # a block is the unchanged tree's when its text is, or when its body is (the same statements under a
+            # reworded condition: `if _, err := f(); err != nil {...}` against `_, err := f()` / `if err != nil {...}`)
+            def body(k):
+                t = k.split(': ', 1)[-1]
+                return t[t.index('{') + 1:t.rindex('}')].strip() if '{' in t and '}' in t and t.index('{') < t.rindex('}') else t
+            bodies = set(body(k) for k in base)
+            new = [(loc, key) for (loc, key) in missed if key not in base and not (len(body(key)) >= 12 and body(key) in bodies)]
             src_tie['blocks_in_anchor_files'] = nblocks
             src_tie['unexercised_blocks_not_in_baseline'] = [loc for loc, _ in new]
             for loc, key in new[:3]:
